@@ -6,8 +6,8 @@ From Core Require Import C14_Model C14_Float C14_Proofs C14_Thms C14_Witness C14
 Import ListNotations.
 
 (* at most min(max_iters, n) columns - no law needed: holds for floats, aliasing operators and batched starts alike *)
-Theorem C14_columns_bound : forall (C V : Type) (o : kops C V) (A : V -> V) (alias : bool) (n : nat) (vs : list V) (max_iters : nat) (tol : C),
-  let res := lanczos_batch o A alias n vs max_iters tol in
+Theorem C14_columns_bound : forall (C V : Type) (o : kops C V) (A : V -> V) (alias rfix : bool) (n : nat) (vs : list V) (max_iters : nat) (tol : C),
+  let res := lanczos_batch o A alias rfix n vs max_iters tol in
   fst res <= Nat.min max_iters n /\ length (snd res) = length vs /\
   forall r, In r (snd res) -> length (rQ r) <= fst res /\ length (rdiag r) <= fst res /\ length (roff r) <= fst res - 1.
 Proof. exact @lanczos_batch_cols. Qed.
@@ -25,15 +25,15 @@ Print Assumptions C14_step_invariant.
    1 <= k <= min(max_iters,n); Q_0 = v/||v||; Q orthonormal; w orthogonal to Q; A Q = Q T + w e_k^T;
    T = Q^H A Q; T real, symmetric, tridiagonal, with non-negative off-diagonal *)
 Theorem C14_whole_run : forall (C V : Type) (o : kops C V) (A : V -> V) (nonneg : C -> Prop), klaws o A nonneg ->
-  forall (tol : C) (v : V) (n max_iters : nat), nonneg tol -> o.(vnrm) v <> o.(c0) -> 1 <= n -> 1 <= max_iters ->
-  exists w : V, lanczos_facts o A nonneg tol v n max_iters w.
+  forall (tol : C) (v : V) (n max_iters : nat) (rfix : bool), nonneg tol -> o.(vnrm) v <> o.(c0) -> 1 <= n -> 1 <= max_iters ->
+  exists w : V, lanczos_facts o A nonneg tol v n max_iters rfix w.
 Proof. exact @lanczos_run. Qed.
 Print Assumptions C14_whole_run.
 
 (* early exit: beta_k = 0 implies A Q = Q T exactly: the span of the returned columns is A-invariant *)
 Theorem C14_early_exit_invariant_subspace : forall (C V : Type) (o : kops C V) (A : V -> V) (nonneg : C -> Prop), klaws o A nonneg ->
-  forall (tol : C) (v : V) (n max_iters : nat) (w : V), lanczos_facts o A nonneg tol v n max_iters w -> o.(vnrm) w = o.(c0) ->
-  let r := lanczos1 o A false n v max_iters tol in
+  forall (tol : C) (v : V) (n max_iters : nat) (rfix : bool) (w : V), lanczos_facts o A nonneg tol v n max_iters rfix w -> o.(vnrm) w = o.(c0) ->
+  let r := lanczos1 o A false rfix n v max_iters tol in
   forall b, b < length (rQ r) -> forall u,
     o.(vdot) u (A (nth b (rQ r) o.(vzero))) =
     o.(vdot) u (vcomb o (length (rQ r)) (fun a => Tent o r a b) (fun a => nth a (rQ r) o.(vzero))).
@@ -43,10 +43,10 @@ Print Assumptions C14_early_exit_invariant_subspace.
 (* lanczos_eigs: with (theta, Y) an eigen-decomposition of T (the eigh oracle), the returned vectors y_j = Q Y[:, j] satisfy
    A y_j = theta_j y_j + Y[k-1, j] w : Ritz pairs, exact eigenpairs of A when beta_k = 0 *)
 Theorem C14_ritz_pairs : forall (C V : Type) (o : kops C V) (A : V -> V) (nonneg : C -> Prop), klaws o A nonneg ->
-  forall (tol : C) (v : V) (n max_iters : nat), 1 <= n -> 1 <= max_iters ->
+  forall (tol : C) (v : V) (n max_iters : nat) (rfix : bool), 1 <= n -> 1 <= max_iters ->
   forall (w : V) (theta : nat -> C) (Y : nat -> nat -> C),
-  lanczos_facts o A nonneg tol v n max_iters w ->
-  let r := lanczos1 o A false n v max_iters tol in
+  lanczos_facts o A nonneg tol v n max_iters rfix w ->
+  let r := lanczos1 o A false rfix n v max_iters tol in
   let k := length (rQ r) in
   (forall a j, a < k -> j < k -> csum o k (fun c => o.(cmul) (Tent o r a c) (Y c j)) = o.(cmul) (theta j) (Y a j)) ->
   forall j, j < k -> forall u,
@@ -60,24 +60,24 @@ Print Assumptions C14_ritz_pairs.
 (* Krylov span: each returned column Q_a lies in span{v, A v, .., A^a v} and each A^t v (t < k) lies in span{Q_0..Q_t}:
    the first j columns span the j-th Krylov space, for every j <= k *)
 Theorem C14_krylov_span : forall (C V : Type) (o : kops C V) (A : V -> V) (nonneg : C -> Prop), klaws o A nonneg ->
-  forall (tol : C) (v : V) (n max_iters : nat), o.(vnrm) v <> o.(c0) -> 1 <= n -> 1 <= max_iters ->
-  forall w : V, lanczos_facts o A nonneg tol v n max_iters w -> lres_krylov o A (lanczos1 o A false n v max_iters tol) v.
+  forall (tol : C) (v : V) (n max_iters : nat) (rfix : bool), o.(vnrm) v <> o.(c0) -> 1 <= n -> 1 <= max_iters ->
+  forall w : V, lanczos_facts o A nonneg tol v n max_iters rfix w -> lres_krylov o A (lanczos1 o A false rfix n v max_iters tol) v.
 Proof. exact @lanczos_krylov. Qed.
 Print Assumptions C14_krylov_span.
 
 (* lanczos_eigs with its oracles (eigh: T Y = Y diag(theta); argsort: a sorting permutation): ascending values, Ritz pairs *)
 Theorem C14_lanczos_eigs : forall (C V : Type) (o : kops C V) (A : V -> V) (nonneg : C -> Prop), klaws o A nonneg ->
-  forall (tol : C) (v : V) (n max_iters : nat), 1 <= n -> 1 <= max_iters ->
+  forall (tol : C) (v : V) (n max_iters : nat) (rfix : bool), 1 <= n -> 1 <= max_iters ->
   forall (w : V) (cle : C -> C -> Prop)
     (eigh : nat -> (nat -> nat -> C) -> (nat -> C) * (nat -> nat -> C)) (argsort : nat -> (nat -> C) -> nat -> nat),
-  lanczos_facts o A nonneg tol v n max_iters w ->
-  let r := lanczos1 o A false n v max_iters tol in
+  lanczos_facts o A nonneg tol v n max_iters rfix w ->
+  let r := lanczos1 o A false rfix n v max_iters tol in
   let k := length (rQ r) in
   let T := Tent o r in
   (forall a j, a < k -> j < k -> csum o k (fun c => o.(cmul) (T a c) (snd (eigh k T) c j)) = o.(cmul) (fst (eigh k T) j) (snd (eigh k T) a j)) ->
   (forall j, j < k -> argsort k (fst (eigh k T)) j < k) ->
   (forall i j, i <= j < k -> cle (fst (eigh k T) (argsort k (fst (eigh k T)) i)) (fst (eigh k T) (argsort k (fst (eigh k T)) j))) ->
-  let out := lanczos_eigs o A false eigh argsort n v max_iters tol in
+  let out := lanczos_eigs o A false rfix eigh argsort n v max_iters tol in
   (forall i j, i <= j < k -> cle (fst out i) (fst out j)) /\
   (forall j, j < k -> forall u,
      o.(vdot) u (A (snd out j)) =
@@ -105,6 +105,12 @@ Print Assumptions C14_alias_identity_refuted.
 Theorem C14_reltol_first_step_refuted : reltol_bad = true.
 Proof. exact lanczos_reltol_first_step_refuted. Qed.
 Print Assumptions C14_reltol_first_step_refuted.
+
+(* ... and the repaired stopping test (rfix = true: reference ||A q_1||, for which all theorems above hold as well) stops after
+   one column on that input *)
+Theorem C14_reltol_first_step_repaired : length (rQ (lanczos1 (fops 3) (fmv S3) false true 3 ev3 3 tol7)) = 1.
+Proof. exact lanczos_reltol_first_step_repaired. Qed.
+Print Assumptions C14_reltol_first_step_repaired.
 
 Theorem C14_batch_shared_stop_refuted : batch_bad = true.
 Proof. exact lanczos_batch_shared_stop_refuted. Qed.
